@@ -34,8 +34,8 @@ PROPS["C18"] = {
 }
 
 PROPS["C01"] = {
-    "rules": [r_transform.rule_TP1, r_sync.rule_S1, r_sync.rule_S2, r_sync.rule_S3, r_sync.rule_S9, r_sync.rule_S10, r_sync.rule_S4, r_sync.rule_S5, r_sync.rule_S6, r_wire.rule_W4, r_storage.rule_N3],
-    "explanation": "TR/TP1: the transform's complete decision table is extracted statically from MIR and checked exhaustively over the finite abstract input space against the documented application semantics (diamond property).",
+    "rules": [r_transform.rule_TP1, r_sync.rule_S1, r_sync.rule_S2, r_sync.rule_S3, r_sync.rule_S9, r_sync.rule_S10, r_sync.rule_S4, r_sync.rule_S5, r_sync.rule_S6, r_wire.rule_W4, r_storage.rule_N3, r_taskdb.rule_A1],
+    "explanation": "A1: the local batch application (what a replica does to its own tasks with the operations it will push) follows the same create/update/delete table as the replay of the server chain; TR/TP1: the transform's complete decision table is extracted statically from MIR and checked exhaustively over the finite abstract input space against the documented application semantics (diamond property).",
     "not_decided": "convergence over whole histories, N replicas, batching arithmetic",
     "assumptions": [],
 }
@@ -64,8 +64,8 @@ PROPS["C12"] = {
     "assumptions": [],
 }
 PROPS["C05"] = {
-    "rules": [lambda F, R: r_txn.rule_T1(F, R, only=("commit_operations",)), r_taskdb.rule_L1, r_taskdb.rule_A1],
-    "explanation": "T1 on TaskDb::commit_operations (one transaction, commit last); L1 every operation logged in order unconditionally from the applied `operations`; A1 dispatch table of apply_operations (cache invalidation on create/delete, update through the cache, final flush).",
+    "rules": [lambda F, R: r_txn.rule_T1(F, R, only=("commit_operations",)), r_taskdb.rule_L1, r_taskdb.rule_A1, r_storage.rule_D],
+    "explanation": "T1 on TaskDb::commit_operations (one transaction, commit last); L1 every operation logged in order unconditionally from the applied `operations`; D2-D4 for the SQLite side of `whole batch or none`: one real transaction, committed only by commit, and every proxied call (not only commit) returns the actor thread's reply, so a rejected write stops the batch; A1 also bounds how entries leave the write cache (one key at a time or a complete drain); A1 dispatch table of apply_operations (cache invalidation on create/delete, update through the cache, final flush).",
     "not_decided": "equivalence of the write-cached batch application with one-at-a-time application for every batch; the replica invariant as a state predicate",
     "assumptions": [],
 }
@@ -112,13 +112,13 @@ PROPS["C14"] = {
     "assumptions": ["serde_json / chrono serde implementations behave as documented"],
 }
 PROPS["C08"] = {
-    "rules": [r_servers.rule_P1, r_servers.rule_P2, r_servers.rule_P3, lambda F, R: r_cloud.rule_K(F, R), r_servers.rule_A1_local, r_servers.rule_GC, r_servers.rule_GI],
+    "rules": [r_servers.rule_P1, r_servers.rule_P2, r_servers.rule_P3, lambda F, R: r_cloud.rule_K(F, R), r_servers.rule_A1_local, r_servers.rule_A1_drop, r_servers.rule_GC, r_servers.rule_GC3, r_servers.rule_GI, r_crypto.rule_X4],
     "explanation": "P1 acceptance-guard path tables for the local, object-store and git backends; P2 identity of returned ids (child vs parent, Ok(id) is the stored fresh id); P3 HTTP mapping table against docs/http.md (endpoints, verbs, content types, headers, 409/404 mapping, urgency header); K1-K5 for the object store; A1 for the local backend.",
     "not_decided": "conformance over long call sequences; byte-for-byte round trips of arbitrary payloads through SQLite/git/HTTP encodings; `changes nothing on rejection` as a state property",
     "assumptions": ["a protocol-conformant sync server on the other side of the HTTP client"],
 }
 PROPS["C11"] = {
-    "rules": [r_servers.rule_A1_local, lambda F, R: r_cloud.rule_K(F, R, which=("K2", "K5", "K4")), r_servers.rule_K7, r_servers.rule_GI, r_servers.rule_GC],
+    "rules": [r_servers.rule_A1_local, r_servers.rule_A1_drop, lambda F, R: r_cloud.rule_K(F, R, which=("K2", "K5", "K4")), r_servers.rule_K7, r_servers.rule_GI, r_servers.rule_GC, r_servers.rule_GC4],
     "explanation": "A1 the local backend's accept path is one SQLite transaction (read, both writes, one commit); K5/K2 object store: the version object exists before `latest` can name it and nothing is acknowledged without the swap; GI git: commit of version file and meta precedes the push and Ok only on push()==true.",
     "not_decided": "git's and SQLite's on-disk behaviour at a kill; restart-and-continue histories; the git backend's error exits between writing meta and committing",
     "assumptions": [],
